@@ -26,6 +26,18 @@ attribute [local instance] hasFloorK hasToNatK
 theorem hasFloor_rat_eq : (hasFloorK : HasFloor Rat) = (inferInstance : HasFloor Rat) := rfl
 theorem hasToNat_rat_eq : (hasToNatK : HasToNat Rat) = (inferInstance : HasToNat Rat) := rfl
 
+/-- Over a field the guarded reciprocal of `scan` is the plain reciprocal (`1 / 0 = 0 = 0 * 0`). -/
+theorem recip0_eq (dx : K) : recip0 dx = 1 / dx := by
+  unfold recip0
+  split_ifs with h
+  · rfl
+  · have : dx = 0 := by
+      rcases lt_trichotomy dx 0 with h1 | h1 | h1
+      · exact absurd (Or.inl h1) h
+      · exact h1
+      · exact absurd (Or.inr h1) h
+    subst this; simp
+
 theorem roundUpHalf_eq (x : K) : roundUpHalf x = ((⌊x + 1 / 2⌋ : Int) : K) + 1 / 2 := rfl
 
 /-- floor of a rounded-up-to-half value is the integer part it was built from -/
